@@ -28,7 +28,7 @@ Ltac leaf :=
 
 Ltac crush :=
   repeat (match goal with
-  | |- context [match ?s with [] => _ | _ :: _ => _ end] => is_var s; destruct s as [|[| ? | ? | | ? | ] ?]
+  | |- context [match ?s with [] => _ | _ :: _ => _ end] => is_var s; destruct s as [|[| ? | ? | | ? | | ] ?]
   | |- context [if ?b then _ else _] => destruct b eqn:?
   end; cbn beta iota); leaf.
 
@@ -52,7 +52,7 @@ Proof.
   destruct (match osch with
             | Some SchBasic => _ | Some SchBearer => _ | _ => _ end) as [attempted a1].
   simpl in H1. clear F1.
-  destruct script as [|[| hdr | id | | sid | ] script1]; try (leaf; fail).
+  destruct script as [|[| hdr | id | | sid | | ] script1]; try (leaf; fail).
   destruct (parse hdr) as [[| |] ps] eqn:Ech; try (leaf; fail).
   - unfold fetch_basic, final_send. crush.
   - set (scopes := if is_empty (get_param s_scope ps) then _ else _).
@@ -70,7 +70,7 @@ Qed.
 Ltac eleaf := simpl; try reflexivity.
 Ltac ecrush :=
   repeat (match goal with
-  | |- context [match ?s with [] => _ | _ :: _ => _ end] => is_var s; destruct s as [|[| ? | ? | | ? | ] ?]
+  | |- context [match ?s with [] => _ | _ :: _ => _ end] => is_var s; destruct s as [|[| ? | ? | | ? | | ] ?]
   | |- context [if ?b then _ else _] => destruct b eqn:?
   | |- context [match cache_get_token ?f ?c ?h ?s ?k with Some _ => _ | None => _ end] =>
     destruct (cache_get_token f c h s k) eqn:?
@@ -86,15 +86,15 @@ Lemma do_request_rd_eq clean cf c rq script :
 Proof.
   unfold do_request, do_request_rd, rd_scheme, rd_tok1, rd_tok2. cbv zeta.
   destruct (cache_get_scheme (cf_flavour cf) c (rq_host rq)) as [[| |]|].
-  - destruct script as [|[| hdr | id | | sid | ] script1]; try reflexivity.
+  - destruct script as [|[| hdr | id | | sid | | ] script1]; try reflexivity.
     destruct (parse hdr) as [[| |] ps]; try reflexivity; unfold fetch_basic, fetch_bearer_plan, final_send; ecrush.
   - destruct (cache_get_token (cf_flavour cf) c (rq_host rq) SchBasic []);
-      (destruct script as [|[| hdr | id | | sid | ] script1]; try reflexivity;
+      (destruct script as [|[| hdr | id | | sid | | ] script1]; try reflexivity;
        destruct (parse hdr) as [[| |] ps]; try reflexivity; unfold fetch_basic, fetch_bearer_plan, final_send; ecrush).
   - destruct (cache_get_token (cf_flavour cf) c (rq_host rq) SchBearer _);
-      (destruct script as [|[| hdr | id | | sid | ] script1]; try reflexivity;
+      (destruct script as [|[| hdr | id | | sid | | ] script1]; try reflexivity;
        destruct (parse hdr) as [[| |] ps]; try reflexivity; unfold fetch_basic, fetch_bearer_plan, final_send; ecrush).
-  - destruct script as [|[| hdr | id | | sid | ] script1]; try reflexivity.
+  - destruct script as [|[| hdr | id | | sid | | ] script1]; try reflexivity.
     destruct (parse hdr) as [[| |] ps]; try reflexivity; unfold fetch_basic, fetch_bearer_plan, final_send; ecrush.
 Qed.
 
@@ -187,7 +187,7 @@ Ltac bleaf :=
 
 Ltac bcrush :=
   repeat (match goal with
-  | |- context [match ?s with [] => _ | _ :: _ => _ end] => is_var s; destruct s as [|[| ? | ? | | ? | ] ?]
+  | |- context [match ?s with [] => _ | _ :: _ => _ end] => is_var s; destruct s as [|[| ? | ? | | ? | | ] ?]
   | |- context [if ?b then _ else _] => destruct b eqn:?
   end; cbn beta iota); bleaf.
 
@@ -198,7 +198,7 @@ Proof.
   unfold do_request_rd.
   destruct (match osch with
             | Some SchBasic => _ | Some SchBearer => _ | _ => _ end) as [attempted a1].
-  destruct script as [|[| hdr | id | | sid | ] script1]; try (bleaf; fail).
+  destruct script as [|[| hdr | id | | sid | | ] script1]; try (bleaf; fail).
   destruct (parse hdr) as [[| |] ps] eqn:Ech; try (bleaf; fail).
   - unfold fetch_basic, final_send. bcrush.
   - set (scopes := if is_empty (get_param s_scope ps) then _ else _).
@@ -213,7 +213,7 @@ Lemma valid_credentials_succeed_rd clean cf rq osch otok1 otok2 script :
   let '(evs, op, r) := do_request_rd clean parse cf rq osch otok1 otok2 script in
   r <> RBad ->
   rewind_ok (rq_body rq) = true ->
-  r <> RErr ENoCred -> r <> RErr EMissing -> r <> RErr ECred ->
+  r <> RErr ENoCred -> r <> RErr EMissing -> r <> RErr ECred -> r <> RErr EShared ->
   (forall s, ~ In (s, AFail) evs) ->
   (forall s, ~ In (s, AErr) evs) ->
   (forall h a hdr, ~ In (SReg h a true, A401 hdr) evs) ->
@@ -223,8 +223,8 @@ Proof.
   pose proof (do_request_rd_budget clean cf rq osch otok1 otok2 script) as B.
   destruct (do_request_rd clean parse cf rq osch otok1 otok2 script) as [[evs op] r].
   destruct B as (B1 & B2 & O & _).
-  intros Hbad Hbody Hnc Hmiss Hce Hfail Herr Hfresh Hknown.
-  destruct r as [[|]|[| | | | |]|]; simpl in O; try congruence.
+  intros Hbad Hbody Hnc Hmiss Hce Hsh Hfail Herr Hfresh Hknown.
+  destruct r as [[|]|[| | | | | |]|]; simpl in O; try congruence.
   - exfalso. destruct O as (h & a & fresh & hdr & L & [->|(ps & P)]).
     + apply (Hfresh h a hdr). apply (last_in _ _ _ L). discriminate.
     + apply (Hknown (SReg h a fresh) hdr ps); auto. apply (last_in _ _ _ L). discriminate.
